@@ -22,6 +22,10 @@ _SPACE_CHARS = frozenset(
     "\u2007\u2008\u2009\u200a\u2028\u2029\u202f\u205f\u3000\ufeff"
 )
 
+# LineTerminator: where a line ends for ^ and $ under the m flag, and what the
+# dot does not match
+_LINE_TERMINATORS = frozenset("\n\r\u2028\u2029")
+
 
 def _is_digit(ch: str) -> bool:
     return "0" <= ch <= "9"
@@ -260,7 +264,7 @@ class RegexVM:
                     pc, sp, captures, registers = self._backtrack(stack)
 
             elif opcode == Op.DOT:
-                if sp >= len(string) or string[sp] == "\n":
+                if sp >= len(string) or string[sp] in _LINE_TERMINATORS:
                     if not stack:
                         return None
                     pc, sp, captures, registers = self._backtrack(stack)
@@ -382,6 +386,13 @@ class RegexVM:
                     if start <= ch_code <= end:
                         matched = True
                         break
+                    # Ignoring case, either form of the character being in
+                    # the class excludes it (as in the positive class above)
+                    if self.ignorecase:
+                        ch_upper = _case_code(ch, ch.upper())
+                        if start <= ch_upper <= end:
+                            matched = True
+                            break
 
                 if not matched:
                     sp += 1
@@ -400,7 +411,9 @@ class RegexVM:
                 pc += 1
 
             elif opcode == Op.LINE_START_M:
-                if sp != 0 and (sp >= len(string) or string[sp - 1] != "\n"):
+                # A line starts at the beginning and after every line
+                # terminator, the one that ends the subject included
+                if sp != 0 and string[sp - 1] not in _LINE_TERMINATORS:
                     if not stack:
                         return None
                     pc, sp, captures, registers = self._backtrack(stack)
@@ -416,7 +429,7 @@ class RegexVM:
                 pc += 1
 
             elif opcode == Op.LINE_END_M:
-                if sp != len(string) and string[sp] != "\n":
+                if sp != len(string) and string[sp] not in _LINE_TERMINATORS:
                     if not stack:
                         return None
                     pc, sp, captures, registers = self._backtrack(stack)
